@@ -380,7 +380,7 @@ def run_shard_generic(spec, seed, tier, mode):
             res.add_violation(case, msg, bucket)
         return res
     if spec["kind"] == "hyp":
-        n = (200 if tier == "quick" else 3500)
+        n = (200 if tier == "quick" else 1500)
         if scheme == "CGKO06.SSE2":
             n = n // 2
         hyp.search(res, S.st_scheme_case(scheme), body, seed, n)
